@@ -1,6 +1,6 @@
 # replay of a solver counterexample against the real library (exit 1 = reproduces)
 import sys, warnings
-sys.path.insert(0, '/repo')
+sys.path.insert(0, '/tmp/sr/C07-m5')
 warnings.simplefilter('ignore')
 import numpy as np
 from svgpathtools import *
@@ -21,7 +21,8 @@ o = objs[name]
 rec = {}
 real = P.inv_arclength
 def spy(curve, s, s_tol=None, maxits=None, error=None, min_depth=None):
-    rec.update(s=s, s_tol=s_tol, maxits=maxits, error=error, min_depth=min_depth); return real(curve, s, s_tol=s_tol, maxits=maxits, error=error, min_depth=min_depth)
+    rec.update(s=s, s_tol=s_tol, maxits=maxits, error=error, min_depth=min_depth)
+    return real(curve, s, **{k: v for k, v in dict(s_tol=s_tol, maxits=maxits, error=error, min_depth=min_depth).items() if v is not None})
 P.inv_arclength = spy
 try:
     o.ilength(o.length() / 3, s_tol=1e-15, maxits=77, error=1e-12, min_depth=3)
